@@ -179,3 +179,19 @@ def guarded(g, node, pattern: str, label: str, bound=None, only_raise_otherwise=
             continue
         return True
     return False
+
+
+def canon_keep(repo: Repo, ci, fn, keep, subst=False):
+    """structural normal form with private helpers inlined EXCEPT those named in `keep` (the helpers a rule reasons about)"""
+    from ..canon import inlined, _fix
+    k = (id(repo), id(fn), tuple(sorted(keep)), subst)
+    if k not in _GCACHE:
+        v = inlined(fn, repo, ci, ci.module.rel if ci is not None else repo.module_of(fn).rel, keep=frozenset(keep))
+        if subst == "bool":
+            from ..canon import bool_temps_substituted
+            v = bool_temps_substituted(v)
+        elif subst:
+            v = _fix(v)
+        v._rel = ci.module.rel if ci is not None else None
+        _GCACHE[k] = v
+    return _GCACHE[k]
